@@ -190,6 +190,8 @@ pub struct SumCtx {
     pub coherent_text: bool,
 }
 
+/// Names a parsed entry is renamed to (C18): their last '-' sits at offsets 1..20.
+pub const RENAMES: [&str; 5] = ["decoy-9.9", "other-pkg-0.1nb2", "x-1", "mktool-1.3-2", "a-much-longer-base-name-10.2nb3"];
 const DECOYS: [&str; 4] = ["decoy-9.9", "other-pkg-0.1nb2", "x-1", "mktool-1.3-2"];
 const FILLER: [&str; 6] = ["x", "", "filler text", "devel", "NetBSD", "20240101"];
 
@@ -338,7 +340,15 @@ const PROBE_BASES: [&str; 10] = [
 /// N + 1 still has at most 18 digits.
 pub fn probe(r: &mut Rng) -> Probe {
     let base = r.pick(&PROBE_BASES).to_string();
-    let prefix = safe_prefix(r);
+    // One probe in eight has a prefix of exactly k components, k swept over
+    // every count up to 70 and around the powers of two up to 2048 (a cap or
+    // a fixed-size buffer in the version parser must not lose the revision).
+    let prefix = if r.chance(1, 8) {
+        let k = *r.pick(&crate::gen::version::length_sweep());
+        crate::gen::version::length_cluster(k).swap_remove(0)
+    } else {
+        safe_prefix(r)
+    };
     let (digits, n) = rev_digits(r, 1, 999_999_999_999_999_998);
     Probe { base, prefix, digits, n }
 }
